@@ -6,6 +6,8 @@ mod ext;
 mod ext2;
 mod ext3;
 mod ext4;
+mod ext_c09;
+mod gen_c09;
 mod enc;
 mod gen;
 mod interp;
